@@ -8,6 +8,16 @@ TEXT = {
         "level_text": "Exploration: generated events over all Unicode scalar values are serialized, signed and altered; Serialize() must equal an independently written canonical serializer byte for byte, every signed event must verify and each of ~14 single alterations must not. Sound, not exhaustive.",
         "level_note": "Trusted: harness/gen/nip01.go canonical serializer (written from the NIP text), btcec/v2/schnorr as BIP-340 implementation, crypto/sha256. Strings are valid UTF-8.",
     },
+    "C10": {
+        "technique": "property-based testing (rapid): grammar-generated wire texts with near-miss mutations against a no-panic / completeness / decode-encode-decode oracle, value round trips for all 14 types, repository corpus replay; native go fuzz target in the thorough tier",
+        "level_text": "Exploration: tens of thousands of generated and mutated JSON texts per run go through ParseClientMsg and json.Unmarshal of all 14 exported types (no panic, complete value, idempotent re-decode), and generated values of every type are round-tripped; thorough adds a coverage-guided fuzz campaign with the same oracle inside the target.",
+        "level_note": "Trusted: the harness's JSON writer and Norm() equality (nil tags = empty tags; absent != empty filter list; OK/CLOSED compared on Message()). Top-level null is not an accepted text.",
+    },
+    "C11": {
+        "technique": "property-based testing (rapid): harness-written well-formed NIP-01 client messages (whitespace/escape/order variants) must be admitted and decode to the written value; ~90 constructed single-point corruption classes must be rejected; a strict NIP-01 predicate as soundness oracle over accepted texts; fuzz target in the thorough tier",
+        "level_text": "Exploration of both directions of the admission gate: completeness on generated well-formed texts (ground truth known by construction) and soundness on everything that is accepted, including corrupted and mutated texts.",
+        "level_note": "Trusted: harness/gen/wire.go (writer + StrictClientMsg predicate). Not generated: since > until, JSON null in place of an object, non-canonical numerals; structural corruptions (arity, label, sub id type, unknown member) only need to yield a sound value if accepted.",
+    },
     "C02": {
         "technique": "property-based testing (rapid): generated events x filters against a naive NIP-01 predicate; LimitMatch/Done sequences against model counters",
         "level_text": "Exploration: thousands of generated (event, filter) pairs, filter lists and LimitMatch sequences per run are compared with an independent naive implementation of the NIP-01 predicate; sound (oracle is the property text) but not exhaustive.",
